@@ -216,7 +216,7 @@ pub fn run(tier: &str) -> i32 {
             alpha: ledger_alphabet(n, &diffs, sp),
             oracle: C01 { limits: limits.clone() },
         };
-        let e = explore(&m, &Limits::new(2, if quick { 55 } else { 6000 }));
+        let e = explore(&m, &Limits::new(2, if quick { 300 } else { 6000 }));
         rep.absorb(
             &format!("LEDGER net={} theta={} n={} D={:?} special<={} limits={:?}", net, theta, n, diffs, sp, limits),
             e,
